@@ -66,11 +66,12 @@ def foldName : Bytes → Bytes
   | 0xE2 :: 0x84 :: 0xAA :: r => 75 :: foldName r
   | c :: r => toUpperB c :: foldName r
 
-/-- The struct member a JSON key selects: exact name first, else the first member with the same folded name. -/
-def fieldOf (fields : List Bytes) (key : Bytes) : Option Bytes :=
-  match fields.find? (· == key) with
-  | some f => some f
-  | none => fields.find? (fun f => foldName f == foldName key)
+/-- The struct member (by position in `fields`) a JSON key selects: exact name first, else the first
+member with the same folded name. -/
+def fieldIdx (fields : List Bytes) (key : Bytes) : Option Nat :=
+  match fields.findIdx? (· == key) with
+  | some i => some i
+  | none => fields.findIdx? (fun f => foldName f == foldName key)
 
 /-! ### decoding into Go values -/
 
@@ -124,10 +125,10 @@ def decInt (old : Int) : DV → Option Int
 def decRaw (_ : DV) (v : DV) : Option DV := some v
 
 /-- The member loop of `decodeState.object` on a struct. -/
-def decMembers {σ : Type} (fields : List Bytes) (set : σ → Bytes → DV → Option σ) : List (Bytes × DV) → σ → Option σ
+def decMembers {σ : Type} (fields : List Bytes) (set : σ → Nat → DV → Option σ) : List (Bytes × DV) → σ → Option σ
   | [], s => some s
   | (k, v) :: rest, s =>
-    match fieldOf fields k with
+    match fieldIdx fields k with
     | none => decMembers fields set rest s
     | some f =>
       match set s f v with
@@ -135,7 +136,7 @@ def decMembers {σ : Type} (fields : List Bytes) (set : σ → Bytes → DV → 
       | none => none
 
 /-- `json.Unmarshal(b, &struct)`: `null` leaves the zero struct, a non-object is a type error. -/
-def decStruct {σ : Type} (fields : List Bytes) (set : σ → Bytes → DV → Option σ) (zero : σ) : DV → Option σ
+def decStruct {σ : Type} (fields : List Bytes) (set : σ → Nat → DV → Option σ) (zero : σ) : DV → Option σ
   | .null => some zero
   | .obj kvs _ => decMembers fields set kvs zero
   | _ => none
@@ -175,10 +176,11 @@ structure FifoSt where
 
 def fifoFields : List Bytes := [fScope, fAgg, fModifiers]
 
-def fifoSet (s : FifoSt) (f : Bytes) (v : DV) : Option FifoSt :=
-  if f == fScope then (decScope s.scope v).map fun x => { s with scope := x }
-  else if f == fAgg then (decBool s.agg v).map fun x => { s with agg := x }
-  else (decSlice decRaw .null s.mods v).map fun x => { s with mods := x }
+def fifoSet (s : FifoSt) (f : Nat) (v : DV) : Option FifoSt :=
+  match f with
+  | 0 => (decScope s.scope v).map fun x => { s with scope := x }
+  | 1 => (decBool s.agg v).map fun x => { s with agg := x }
+  | _ => (decSlice decRaw .null s.mods v).map fun x => { s with mods := x }
 
 /-- `fifo.groupFromJSON` up to the children's own parsing. -/
 def fifoNode (body : DV) : Node :=
@@ -192,9 +194,10 @@ structure PrioElem where
 
 def prioElemFields : List Bytes := [fPriority, fModifier]
 
-def prioElemSet (e : PrioElem) (f : Bytes) (v : DV) : Option PrioElem :=
-  if f == fPriority then (decInt e.prio v).map fun x => { e with prio := x }
-  else some { e with mod := some v }
+def prioElemSet (e : PrioElem) (f : Nat) (v : DV) : Option PrioElem :=
+  match f with
+  | 0 => (decInt e.prio v).map fun x => { e with prio := x }
+  | _ => some { e with mod := some v }
 
 /-- one element of `[]modifierJSON`, decoded into what the backing array holds at that index -/
 def decPrioElem (old : PrioElem) (v : DV) : Option PrioElem := decStruct prioElemFields prioElemSet old v
@@ -205,9 +208,10 @@ structure PrioSt where
 
 def prioFields : List Bytes := [fScope, fModifiers]
 
-def prioSet (s : PrioSt) (f : Bytes) (v : DV) : Option PrioSt :=
-  if f == fScope then (decScope s.scope v).map fun x => { s with scope := x }
-  else (decSlice decPrioElem {} s.mods v).map fun x => { s with mods := x }
+def prioSet (s : PrioSt) (f : Nat) (v : DV) : Option PrioSt :=
+  match f with
+  | 0 => (decScope s.scope v).map fun x => { s with scope := x }
+  | _ => (decSlice decPrioElem {} s.mods v).map fun x => { s with mods := x }
 
 /-- `parse.FromJSON(m.Modifier)` on a possibly nil `json.RawMessage` -/
 def rawNode : Option DV → Node
@@ -229,15 +233,16 @@ structure FilterSt where
   els : Option DV := none
   scope : Sl Bytes := Sl.nil
 
-/-- `params` = the names of the string members, in the order a b c d -/
-def filterSet (params : List Bytes) (s : FilterSt) (f : Bytes) (v : DV) : Option FilterSt :=
-  if f == fModifier then some { s with mod := some v }
-  else if f == fElse then some { s with els := some v }
-  else if f == fScope then (decScope s.scope v).map fun x => { s with scope := x }
-  else if some f == params[0]? then (decString s.a v).map fun x => { s with a := x }
-  else if some f == params[1]? then (decString s.b v).map fun x => { s with b := x }
-  else if some f == params[2]? then (decString s.c v).map fun x => { s with c := x }
-  else (decString s.d v).map fun x => { s with d := x }
+/-- members: `modifier`, `else`, `scope`, then the string parameters a b c d -/
+def filterSet (s : FilterSt) (f : Nat) (v : DV) : Option FilterSt :=
+  match f with
+  | 0 => some { s with mod := some v }
+  | 1 => some { s with els := some v }
+  | 2 => (decScope s.scope v).map fun x => { s with scope := x }
+  | 3 => (decString s.a v).map fun x => { s with a := x }
+  | 4 => (decString s.b v).map fun x => { s with b := x }
+  | 5 => (decString s.c v).map fun x => { s with c := x }
+  | _ => (decString s.d v).map fun x => { s with d := x }
 
 /-- `len(msg.ElseModifier) > 0` (cookie: `!= nil`): the member appeared at all -/
 def elseNode : Option DV → Option Node
@@ -245,7 +250,7 @@ def elseNode : Option DV → Option Node
   | some d => some d.node
 
 def filterNode (params : List Bytes) (mk : FilterSt → Cond) (body : DV) : Node :=
-  match decStruct (params ++ [fModifier, fElse, fScope]) (filterSet params) {} body with
+  match decStruct ([fModifier, fElse, fScope] ++ params) filterSet {} body with
   | none => .malformed
   | some s => .filter (mk s) (scopeOfSl s.scope) (rawNode s.mod) (elseNode s.els)
 
@@ -258,12 +263,13 @@ structure ProbeSt where
 
 def probeFields : List Bytes := [fLabel, fCaps, fFailReq, fFailRes, fScope]
 
-def probeSet (s : ProbeSt) (f : Bytes) (v : DV) : Option ProbeSt :=
-  if f == fLabel then (decInt s.label v).map fun x => { s with label := x }
-  else if f == fCaps then (decString s.caps v).map fun x => { s with caps := x }
-  else if f == fFailReq then (decBool s.fq v).map fun x => { s with fq := x }
-  else if f == fFailRes then (decBool s.fs v).map fun x => { s with fs := x }
-  else (decScope s.scope v).map fun x => { s with scope := x }
+def probeSet (s : ProbeSt) (f : Nat) (v : DV) : Option ProbeSt :=
+  match f with
+  | 0 => (decInt s.label v).map fun x => { s with label := x }
+  | 1 => (decString s.caps v).map fun x => { s with caps := x }
+  | 2 => (decBool s.fq v).map fun x => { s with fq := x }
+  | 3 => (decBool s.fs v).map fun x => { s with fs := x }
+  | _ => (decScope s.scope v).map fun x => { s with scope := x }
 
 def capsOfStr (s : Bytes) : Caps :=
   if s == strBytes "q" then ⟨true, false⟩ else if s == strBytes "s" then ⟨false, true⟩
@@ -326,9 +332,14 @@ def servePOSTJ (s : Active) (j : JVal) : Active × Except PErr Unit := servePOST
 
 def jstr (s : String) : Bytes := strBytes s
 
+def tokName : Tok → Bytes
+  | .request => strBytes "request"
+  | .response => strBytes "response"
+  | .other => strBytes "x"
+
 def renderScope : Scope → List (Bytes × JVal)
   | none => []
-  | some ts => [(fScope, .arr (ts.map fun t => .str (match t with | .request => strBytes "request" | .response => strBytes "response" | .other => strBytes "x")))]
+  | some ts => [(fScope, .arr (ts.map fun t => .str (tokName t)))]
 
 def renderInt (i : Int) : JVal := .num ⟨decide (i < 0), i.natAbs, false⟩
 
@@ -367,6 +378,27 @@ def renderPList : List (Int × Node) → List JVal
 def renderElse : Option Node → List (Bytes × JVal)
   | none => []
   | some e => [(fElse, render e)]
+end
+
+/-! ### trees whose numbers a JSON text can carry into Go's `int64` -/
+
+mutual
+def fits : Node → Bool
+  | .leaf l _ _ _ _ => decide ((l : Int) ≤ maxInt64)
+  | .unknown => true
+  | .malformed => true
+  | .fifo _ _ cs => fitsList cs
+  | .prio _ cs => fitsPList cs
+  | .filter _ _ t e => fits t && fitsOpt e
+def fitsList : List Node → Bool
+  | [] => true
+  | c :: cs => fits c && fitsList cs
+def fitsPList : List (Int × Node) → Bool
+  | [] => true
+  | (p, c) :: cs => decide (minInt64 ≤ p ∧ p ≤ maxInt64) && fits c && fitsPList cs
+def fitsOpt : Option Node → Bool
+  | none => true
+  | some e => fits e
 end
 
 end Martian.Config
